@@ -258,6 +258,8 @@ export class Renderer {
         const t = this.findTemplate(file, String(key))
         if (!t) return
         const data = n.data ? X.evalExpr(n.data, env) : {} // no `data`: the sub-template has no data fields at all
+        // (a `data` expression that does not yield an object has no meaning the documentation gives)
+        if (data === null || typeof data !== 'object') throw new X.RefThrow('template data is not an object')
         const env2 = new Env(this.fileScopes(t.file), data)
         for (const c of t.def.children) this.renderNode(c, env2, t.file, out)
         return
